@@ -168,6 +168,11 @@ func ModOps(full bool) []Op {
 	add("AddRequire", "b.com/y", "v2.0.0+incompatible")
 	add("AddRetract", "v2.0.0+incompatible", "v2.0.0+incompatible", "wrong major")
 	add("DropRetract", "v2.0.0+incompatible", "v2.0.0+incompatible")
+	// two canonical versions of one path that are equal as versions and different as keys (round 32)
+	add("AddExclude", "a.com/x", "v1.0.0+incompatible")
+	if full {
+		add("DropExclude", "a.com/x", "v1.0.0+incompatible")
+	}
 	// an interval whose bounds are equal as versions and different as strings (both canonical)
 	add("AddRetract", "v1.4.0", "v1.4.0+incompatible", "equal as versions")
 	add("DropRetract", "v1.4.0", "v1.4.0+incompatible")
